@@ -3,6 +3,7 @@ REGISTRY = {
     "C01": "core",
     "C02": "core",
     "C03": "core",
+    "C05": "c05",
     "C10": "core",
     "C11": "core",
 }
